@@ -173,6 +173,8 @@ func meet(states []*state) *state {
 }
 
 type pkgAn struct {
+	files    []*ast.File
+	path     string // import path
 	short    string
 	rel      string // directory relative to the repo root
 	fset     *token.FileSet
@@ -257,6 +259,7 @@ func Extract(root string) (*Table, error) {
 	tbl := &Table{}
 	all := map[string]*Row{}
 	var order []string
+	var pas []*pkgAn
 	for _, d := range dirs {
 		pa, err := analysePackage(root, d)
 		if err != nil {
@@ -265,6 +268,7 @@ func Extract(root string) (*Table, error) {
 		if pa == nil {
 			continue
 		}
+		pas = append(pas, pa)
 		for t := range pa.tracked {
 			tbl.Types = append(tbl.Types, t)
 		}
@@ -279,6 +283,7 @@ func Extract(root string) (*Table, error) {
 	for _, k := range order {
 		tbl.Rows = append(tbl.Rows, all[k])
 	}
+	addSharedGlobals(tbl, pas)
 	sort.SliceStable(tbl.Rows, func(i, j int) bool {
 		a, b := tbl.Rows[i], tbl.Rows[j]
 		if a.Field != b.Field {
@@ -367,7 +372,7 @@ func analysePackage(root, dir string) (*pkgAn, error) {
 		return nil, nil
 	}
 	rel, _ := filepath.Rel(root, dir)
-	pa := &pkgAn{short: pkg.Name(), rel: rel, fset: fset, info: info, fields: map[*types.Var]*fieldInfo{}, innerMutex: map[*fieldInfo]*fieldInfo{},
+	pa := &pkgAn{files: files, path: modulePath(root) + "/" + filepath.ToSlash(rel), short: pkg.Name(), rel: rel, fset: fset, info: info, fields: map[*types.Var]*fieldInfo{}, innerMutex: map[*fieldInfo]*fieldInfo{},
 		tracked: map[string]bool{}, decls: map[*types.Func]*ast.FuncDecl{}, sends: map[string]int{}, closes: map[string]int{},
 		rows: map[string]*Row{}, memo: map[string]bool{}, called: map[*types.Func]bool{},
 		summaries: map[*types.Func]map[int][]map[string]string{}, newSumm: map[*types.Func]map[int][]map[string]string{}}
@@ -443,9 +448,6 @@ func analysePackage(root, dir string) (*pkgAn, error) {
 				}
 			}
 		}
-	}
-	if len(trackedNames) == 0 {
-		return nil, nil
 	}
 	for _, s := range structs {
 		if !trackedNames[s.name] {
@@ -1413,4 +1415,213 @@ func (pa *pkgAn) addSummary(fn *types.Func, idx int, ls map[string]string) {
 		}
 	}
 	m[idx] = append(m[idx], ls)
+}
+
+// ---- objects shared through package-level variables -----------------------------------------------
+//
+// A mutex field guards the object it lives in.  When ONE object is handed to several owners — here: a
+// package-level variable whose initialiser creates an object (rand.New(…)) and passes it to an option
+// that ends up in a pointee-effect field (resource.config.rng) of every model built from those defaults
+// — the owners' mutexes are different mutexes and order nothing between them.  For every such flow
+// the table gets, for each live pointee write of that field, a row on the location
+// "shared:<pkg.Var>-><field>" that holds NO per-object lock; such a row conflicts with itself and is
+// unordered, so the discipline fails until the sharing is removed.
+//
+// The flow is found syntactically: sink summaries "parameter i of function F reaches pointee field f"
+// (direct: `x.f = param` anywhere in F, including the closures it returns; transitive: F passes the
+// parameter on to a function that has a summary, package-local or imported), iterated to a fixpoint
+// over all packages; then the package-level `var` initialisers are searched for calls of summarised
+// functions whose argument is an object created right there (a call, &T{…}, new/make) or another
+// package-level variable.
+
+var modPathCache = map[string]string{}
+
+func modulePath(root string) string {
+	if p, ok := modPathCache[root]; ok {
+		return p
+	}
+	p := "github.com/smart-core-os/sc-golang"
+	if b, err := os.ReadFile(filepath.Join(root, "go.mod")); err == nil {
+		for _, l := range strings.Split(string(b), "\n") {
+			if strings.HasPrefix(l, "module ") {
+				p = strings.TrimSpace(strings.TrimPrefix(l, "module "))
+				break
+			}
+		}
+	}
+	modPathCache[root] = p
+	return p
+}
+
+type sinkMap map[string]map[int]string // "importpath.Func" -> param index -> pointee field
+
+// calleeKey resolves the function a call names: package-local or pkgalias.Func of an import
+func (pa *pkgAn) calleeKey(call *ast.CallExpr) string {
+	switch f := call.Fun.(type) {
+	case *ast.Ident:
+		if fn, ok := pa.info.Uses[f].(*types.Func); ok && fn.Pkg() != nil {
+			return pa.path + "." + fn.Name()
+		}
+	case *ast.SelectorExpr:
+		if id, ok := f.X.(*ast.Ident); ok {
+			if pn, ok := pa.info.Uses[id].(*types.PkgName); ok {
+				return pn.Imported().Path() + "." + f.Sel.Name
+			}
+		}
+	}
+	return ""
+}
+
+func (pa *pkgAn) sinkRound(sinks sinkMap) bool {
+	changed := false
+	for fn, fd := range pa.decls {
+		if fd.Recv != nil {
+			continue
+		}
+		sig, ok := fn.Type().(*types.Signature)
+		if !ok {
+			continue
+		}
+		params := map[types.Object]int{}
+		for i := 0; i < sig.Params().Len(); i++ {
+			params[sig.Params().At(i)] = i
+		}
+		key := pa.path + "." + fn.Name()
+		add := func(i int, field string) {
+			if sinks[key] == nil {
+				sinks[key] = map[int]string{}
+			}
+			if _, ok := sinks[key][i]; !ok {
+				sinks[key][i] = field
+				changed = true
+			}
+		}
+		paramOf := func(e ast.Expr) (int, bool) {
+			if id, ok := e.(*ast.Ident); ok {
+				if i, ok := params[pa.info.Uses[id]]; ok {
+					return i, true
+				}
+			}
+			return 0, false
+		}
+		ast.Inspect(fd.Body, func(n ast.Node) bool {
+			switch x := n.(type) {
+			case *ast.AssignStmt:
+				for k, l := range x.Lhs {
+					if k >= len(x.Rhs) {
+						break
+					}
+					if fi := pa.fieldOf(l); fi != nil {
+						if _, has := pointeeEffects[fi.full()]; has {
+							if i, ok := paramOf(x.Rhs[k]); ok {
+								add(i, fi.full())
+							}
+						}
+					}
+				}
+			case *ast.CallExpr:
+				if m := sinks[pa.calleeKey(x)]; m != nil {
+					for j, a := range x.Args {
+						if field, ok := m[j]; ok {
+							if i, ok := paramOf(a); ok {
+								add(i, field)
+							}
+						}
+					}
+				}
+			}
+			return true
+		})
+	}
+	return changed
+}
+
+type sharedGlobal struct {
+	Var, Field, Pos, Expr string
+}
+
+func (pa *pkgAn) sharedGlobals(sinks sinkMap) []sharedGlobal {
+	var res []sharedGlobal
+	for _, f := range pa.files {
+		for _, d := range f.Decls {
+			gd, ok := d.(*ast.GenDecl)
+			if !ok || gd.Tok != token.VAR {
+				continue
+			}
+			for _, sp := range gd.Specs {
+				vs, ok := sp.(*ast.ValueSpec)
+				if !ok || len(vs.Names) == 0 {
+					continue
+				}
+				for _, v := range vs.Values {
+					ast.Inspect(v, func(n ast.Node) bool {
+						if _, isLit := n.(*ast.FuncLit); isLit {
+							return false // runs later, per call
+						}
+						call, ok := n.(*ast.CallExpr)
+						if !ok {
+							return true
+						}
+						m := sinks[pa.calleeKey(call)]
+						for j, a := range call.Args {
+							field, ok := m[j]
+							if !ok {
+								continue
+							}
+							created := false
+							switch y := a.(type) {
+							case *ast.CallExpr, *ast.CompositeLit:
+								created = true
+							case *ast.UnaryExpr:
+								created = y.Op == token.AND
+							case *ast.Ident:
+								if o, ok := pa.info.Uses[y].(*types.Var); ok && o.Parent() == o.Pkg().Scope() {
+									created = true // another package-level variable
+								}
+							}
+							if created {
+								res = append(res, sharedGlobal{Var: pa.short + "." + vs.Names[0].Name, Field: field, Pos: pa.pos(a), Expr: types.ExprString(a)})
+							}
+						}
+						return true
+					})
+				}
+			}
+		}
+	}
+	return res
+}
+
+func addSharedGlobals(tbl *Table, pas []*pkgAn) {
+	sinks := sinkMap{}
+	for round := 0; round < 6; round++ {
+		changed := false
+		for _, pa := range pas {
+			if pa.sinkRound(sinks) {
+				changed = true
+			}
+		}
+		if !changed {
+			break
+		}
+	}
+	for _, pa := range pas {
+		for _, g := range pa.sharedGlobals(sinks) {
+			loc := "shared:" + g.Var + "->" + g.Field
+			tbl.Notes = append(tbl.Notes, fmt.Sprintf("%s: %s created once at package initialisation (%s) reaches %s of every object built from %s", loc, g.Expr, g.Pos, g.Field, g.Var))
+			var add []*Row
+			for _, r := range tbl.Rows {
+				if r.Field == g.Field && r.Kind == "W" && r.Phase == "live" {
+					add = append(add, &Row{Field: loc, Kind: "W", Fn: r.Fn, Held: nil, Phase: "live", Role: r.Role, Pos: append(append([]string{}, r.Pos...), g.Pos)})
+				}
+			}
+			seen := map[string]bool{}
+			for _, r := range add {
+				if k := r.semKey(); !seen[k] {
+					seen[k] = true
+					tbl.Rows = append(tbl.Rows, r)
+				}
+			}
+		}
+	}
 }
